@@ -46,6 +46,18 @@ CHECKS = {
     'C15': (EX, 'small-scope exhaustive enumeration of supported and unsupported parameter trees x pickle protocols',
             'Every supported tree: normalisation at every depth, frozen, hashable, spelling-independent equality/hash, cross-type inequality, dependency set equal to an independent finder, serialisable; for every pickle protocol the copy is equal, same hash/key/dependencies, carries post_init-derived state and no results/context (the original carried all three). Every supported tree of depth <=2 with one position replaced by an unsupported value or non-string dict key must raise TaskError.',
             'Trusted: independent dependency finder and canonical form.', 'E5', '5/C15'),
+    'C06': (EX, 'exhaustive enumeration of a finite history x configuration space: run -> is_cached -> run over value/shape/clock alphabets and all backend pairs',
+            'In-process: every (type, parameter tree, clock) item is executed, then re-requested through a fresh Lab and fresh equal task objects: equal value, no run(), result_meta exactly the recorded start/duration (fake datetime alphabet incl. 0, 1 us, 0.1+0.2 s, 1 day + 1 us), value embeds the identity of its task. Cross-process: all 9 ordered pairs of serial/fork/spawn with both runs in fresh interpreters under different hash seeds over one LocalStorage directory.',
+            'Real fork/spawn runs are real executions of an enumerated finite list, not schedule-exhaustive; values compared through repr across processes.', 'E5+E4', '5/C06'),
+    'C08': (MC, 'explicit-state BFS over histories of Lab operations against a dict reference model, canonical-state de-duplication',
+            'Breadth-first search (depth 3 quick / 4 thorough on in-memory storage; 2/3 on LocalStorage, fsspec-local, NullStorage; PickleCache, protocol-2 PickleCache and a JSON cache format) over run_tasks / run_tasks(bust_cache) / uncache_tasks on every subset of size <=2 of a 5-task universe with dependencies and a cache=None type. Every transition replays the real Lab from the empty storage and compares return value, executed set, is_cached of all tasks, cached_tasks for 4 type lists, the complete storage listing and a read-back on a copy with the model.',
+            'Trusted: a Lab keeps no state between calls other than the storage (fresh Lab/task objects per operation); canonical form renames epochs by order of appearance.', 'E7', '5/C08'),
+    'C18': (EX, 'small-scope exhaustive enumeration of key/filename strings x operations x layouts with before/after sandbox snapshots and an audit hook',
+            'All strings of <=2 (quick) / <=3 (thorough) segments from 18 adversarial segments joined by / or \\ as key and as filename x exists / delete / file_handle in 8 modes x 4 pre-existing layouts (symlinks to outside, to a sibling key, dangling, symlinked file inside a key dir, storage reached through a symlink). After every operation nothing outside the storage directory changed or was opened, and changes are confined to one direct child and files directly inside it.',
+            'Reads are observed through audit events with absolute paths; dir_fd-relative events inside rmtree are judged by the snapshot diff only.', 'E5', '5/C18'),
+    'C20': (EX, 'small-scope exhaustive enumeration of task graphs; diagram text parsed back and compared with an independent traversal',
+            'Task graphs over 4 typed task types with scalar / single-task / list / dict / nested-collection parameters to depth 2 (quick) / 3 (thorough) plus pairs of tasks differing in single-vs-collection use of a parameter: class blocks = reachable types once each with all parameters and the run signature; arrows = reference (dependent, parameter, dependency) set once each with the right many flag; identical text on rebuild and in fresh interpreters under other hash seeds.',
+            'Trusted: the line-form parser in props/c20.py.', 'E5', '5/C20'),
 }
 
 PENDING = {
